@@ -8,6 +8,7 @@ import (
 	"os"
 	"path/filepath"
 	"sort"
+	"strings"
 	"time"
 
 	"github.com/jhalter/mobius/hotline"
@@ -210,7 +211,20 @@ func AcctCanon(name string, access [8]byte, password string) string {
 	return fmt.Sprintf("%q|%s|%q", name, hex.EncodeToString(access[:]), password)
 }
 
+const maskedPassword = "<masked>"
+
+// canonPassword: accounts created / renamed by a crash-history probe get a freshly salted hash: not comparable.
+func canonPassword(login, password string) string {
+	if strings.HasPrefix(login, probePrefix) {
+		return maskedPassword
+	}
+	return password
+}
+
 func ArtCanon(a hotline.NewsArtData) string {
+	if strings.HasPrefix(a.Title, probePrefix) { // posted by a crash-history probe through the handler: the date is "now"
+		return fmt.Sprintf("%q|%q|-|%s|%q", a.Title, a.Poster, hex.EncodeToString(a.ParentArt[:]), a.Data)
+	}
 	return fmt.Sprintf("%q|%q|%s|%s|%q", a.Title, a.Poster, hex.EncodeToString(a.Date[:]), hex.EncodeToString(a.ParentArt[:]), a.Data)
 }
 
@@ -275,7 +289,7 @@ func LoadAll(dir string, probeIPs []string) Loaded {
 	if _, bad := errs["accts"]; !bad {
 		if err := guard(func() error {
 			for _, a := range s.AM.List() {
-				l.Accts[a.Login] = AcctCanon(a.Name, a.Access, a.Password)
+				l.Accts[a.Login] = AcctCanon(a.Name, a.Access, canonPassword(a.Login, a.Password))
 			}
 			return nil
 		}); err != nil {
